@@ -165,6 +165,36 @@ enum FormatComponent {
         width: Option<usize>,
         justify: Justify,
     },
+    /// A directive with a precision ("%.3p", "%10.5d").
+    Precise {
+        directive: FormatDirective,
+        width: Option<usize>,
+        justify: Justify,
+        precision: usize,
+    },
+}
+
+/// The value of a directive under a precision, as C's printf has it: at least
+/// that many digits for the numbers (%d, %m: none at all for 0 under ".0"), at
+/// most that many characters for everything else.
+fn with_precision(directive: &FormatDirective, content: &str, precision: usize) -> String {
+    let number = matches!(
+        directive,
+        FormatDirective::Depth | FormatDirective::Permissions(PermissionsFormat::Octal)
+    );
+    if !number {
+        return content.chars().take(precision).collect();
+    }
+    if precision == 0 && content == "0" {
+        return String::new();
+    }
+    let zeros = precision.saturating_sub(content.chars().count());
+    // (by hand, like the blanks of a width: a precision can be large)
+    let mut padded = String::new();
+    for _ in 0..zeros.min(i32::MAX as usize) {
+        padded.push('0');
+    }
+    padded + content
 }
 
 struct FormatStringParser<'a> {
@@ -300,6 +330,14 @@ impl FormatStringParser<'_> {
         }
 
         let width = self.parse_format_width()?;
+        // A precision: "." and digits (none: 0).  The conversion character
+        // has to follow.
+        let precision = if self.front()? == '.' {
+            self.advance_one()?;
+            Some(self.parse_format_width()?.unwrap_or(0))
+        } else {
+            None
+        };
 
         let first = self.advance_one()?;
         if first == '%' {
@@ -353,10 +391,18 @@ impl FormatStringParser<'_> {
             _ => return Ok(FormatComponent::Literal(first.to_string())),
         };
 
-        Ok(FormatComponent::Directive {
-            directive,
-            width,
-            justify,
+        Ok(match precision {
+            None => FormatComponent::Directive {
+                directive,
+                width,
+                justify,
+            },
+            Some(precision) => FormatComponent::Precise {
+                directive,
+                width,
+                justify,
+                precision,
+            },
         })
     }
 
@@ -685,11 +731,21 @@ impl Printf {
                 FormatComponent::Byte(byte) => out.write_all(&[*byte])?,
                 // \c: flush, and nothing more is printed for this file.
                 FormatComponent::Flush => break,
-                FormatComponent::Directive {
-                    directive,
-                    width,
-                    justify,
-                } => {
+                FormatComponent::Directive { .. } | FormatComponent::Precise { .. } => {
+                    let (directive, width, justify, precision) = match component {
+                        FormatComponent::Precise {
+                            directive,
+                            width,
+                            justify,
+                            precision,
+                        } => (directive, width, justify, Some(*precision)),
+                        FormatComponent::Directive {
+                            directive,
+                            width,
+                            justify,
+                        } => (directive, width, justify, None),
+                        _ => continue,
+                    };
                     let content = match format_directive(file_info, directive) {
                         Ok(content) => content,
                         Err(e) => {
@@ -704,6 +760,10 @@ impl Printf {
                             complete = false;
                             Default::default()
                         }
+                    };
+                    let content = match precision {
+                        Some(precision) => with_precision(directive, &content, precision).into(),
+                        None => content,
                     };
                     if let Some(width) = width {
                         // Padded by hand: the formatting machinery refuses
